@@ -361,23 +361,23 @@ func Shrink(try func(vals []uint32) *Result, orig *Result, maxTries int) (*Resul
 // ---- replay files -------------------------------------------------------------------
 
 type ReplayFile struct {
-	Property  string                 `json:"property"`
-	Variant   string                 `json:"variant"`
-	Engine    string                 `json:"engine"`
-	Seed      uint64                 `json:"seed"`
-	Run       uint64                 `json:"run"`
-	Tier      string                 `json:"tier"`
-	Config    map[string]interface{} `json:"config"`
-	Tape      []uint32               `json:"tape"`
+	Property string                 `json:"property"`
+	Variant  string                 `json:"variant"`
+	Engine   string                 `json:"engine"`
+	Seed     uint64                 `json:"seed"`
+	Run      uint64                 `json:"run"`
+	Tier     string                 `json:"tier"`
+	Config   map[string]interface{} `json:"config"`
+	Tape     []uint32               `json:"tape"`
 	// Search: the run is reproduced from (seed, run) with the generating tape
 	// (used for hangs, where no consumed tape could be recorded).
-	Search    bool                   `json:"search,omitempty"`
-	OrigLen   int                    `json:"original_tape_len"`
-	Shrinks   int                    `json:"shrink_replays"`
-	Violation sim.Violation          `json:"violation"`
-	LogHash   string                 `json:"event_log_sha256"`
-	Trace     []string               `json:"trace"`
-	GoVersion string                 `json:"go_version"`
+	Search    bool          `json:"search,omitempty"`
+	OrigLen   int           `json:"original_tape_len"`
+	Shrinks   int           `json:"shrink_replays"`
+	Violation sim.Violation `json:"violation"`
+	LogHash   string        `json:"event_log_sha256"`
+	Trace     []string      `json:"trace"`
+	GoVersion string        `json:"go_version"`
 }
 
 // ---- known findings -----------------------------------------------------------------
